@@ -28,7 +28,7 @@ REQUIRED = {"trees_compared": 400, "conditional_includes": 400, "else_branches":
             "active_errors": 15, "inactive_errors": 60, "nested_includes": 200, "repeated_names": 100,
             "whitespace_variants": 400, "independence_checks": 100, "conditional_type_entries": 100, "max_depth": 3,
             "after_moleculetype_cases": 20, "relative_path_readings": 400,
-            "repeated_molecule_includes": 30}
+            "repeated_molecule_includes": 30, "readings_through_a_symbolic_link": 100}
 TYPES = ["a", "b", "c"]
 MACROS = ["FOO", "BAR", "BAZ"]
 
@@ -436,6 +436,24 @@ def run_case(cid, rng, workdir):
                           "reading the same tree as %r from %s gives %s" % (rel, "its own directory" if cwd == tree_root else "the parent directory", what), w)
     finally:
         os.chdir(here)
+    # the topology reached through a symbolic link in another directory: includes are relative to the including file as
+    # it was named, i.e. to the directory of the link (the files next to the link's target are made unreadable)
+    if len(files) >= 2 and rng.random() < 0.3:
+        import shutil
+        link_root = os.path.join(workdir, "linkdir")
+        target_root = os.path.join(workdir, "elsewhere")
+        shutil.copytree(tree_root, link_root)
+        os.makedirs(target_root)
+        shutil.copy(os.path.join(tree_root, "t.top"), os.path.join(target_root, "t.top"))
+        os.remove(os.path.join(link_root, "t.top"))
+        os.symlink(os.path.join(target_root, "t.top"), os.path.join(link_root, "t.top"))
+        st_l, s_l, _e5 = read(os.path.join(link_root, "t.top"))
+        bump(res, "readings_through_a_symbolic_link")
+        if st_l != "ok" or s_l != s_tree:
+            what = s_l if st_l != "ok" else [k for k in s_tree if s_tree[k] != s_l[k]]
+            violation(res, "include-path-not-relative-to-including-file:symbolic-link",
+                      "reading the topology through a symbolic link (included files next to the link, not next to its target) "
+                      "gives %s" % (what,), w)
     # expected molecule list from the spec
     exp_list = [n for n, c in mols for _ in range(c)]
     if s_tree["mols"] != exp_list:
